@@ -138,7 +138,7 @@ func EchoServer(ctx context.Context, ln *quic.Listener, uniSize int, report func
 						if err != nil {
 							return
 						}
-						s.Write(Data(900, uniSize))
+						WriteScratch(s, Data(900, uniSize))
 						s.Close()
 					}()
 				}
@@ -153,7 +153,7 @@ func EchoServer(ctx context.Context, ln *quic.Listener, uniSize int, report func
 							s.CancelWrite(1)
 							return
 						}
-						s.Write(b)
+						WriteScratch(s, b)
 						s.Close()
 					}()
 				}
@@ -184,7 +184,7 @@ func EchoOnce(ctx context.Context, conn *quic.Conn, plan, size, uniSize int) err
 	}
 	werr := make(chan error, 1)
 	go func() {
-		_, err := s.Write(Data(plan, size))
+		_, err := WriteScratch(s, Data(plan, size))
 		if err == nil {
 			err = s.Close()
 		}
@@ -219,4 +219,16 @@ func EchoOnce(ctx context.Context, conn *quic.Conn, plan, size, uniSize int) err
 // EchoOnceNoUni is EchoOnce with a small payload and no unidirectional stream.
 func EchoOnceNoUni(ctx context.Context, conn *quic.Conn, plan int) error {
 	return EchoOnce(ctx, conn, plan, 600, -1)
+}
+
+// WriteScratch writes p the way an application with a reused buffer does: from a scratch copy
+// that is overwritten as soon as Write returns (io.Writer: "Write must not retain p"). A
+// stream that kept a reference to the caller's slice would then send 0xEE bytes.
+func WriteScratch(w io.Writer, p []byte) (int, error) {
+	scratch := append([]byte(nil), p...)
+	n, err := w.Write(scratch)
+	for i := range scratch {
+		scratch[i] = 0xEE
+	}
+	return n, err
 }
